@@ -18,11 +18,54 @@ BASE_NOTE = ("Trusted: Kani/CBMC/CaDiCaL; tokio and tokio-util replaced by the d
 
 # property -> (claim text, design_ref)
 CLAIMS = {
-    "C02": ("Solver verdict over all 32-bit values for every credit-moving step (use_credits, start_return, provide, "
-            "try_request/request, AssignedCredits take/drop) and for the dispatcher's Data/PortData/PortCredits "
-            "handlers: each step moves exactly the amount it accounts for, never exceeds the advertised buffer or "
-            "chunk size, never returns more than was consumed. The whole-life bound follows by induction over these "
-            "atomic steps (single dispatcher task); the induction itself is a paper argument.", "DESIGN.md 4 C02"),
+    "C01": ("Solver verdict, for all flag/port/credit values and payloads up to the stated lengths, that the dispatcher's "
+            "data-path steps (handle_event(SendData), handle_received_msg(Data)) pass payload bytes and first/last flags "
+            "through unchanged to exactly the addressed port and reject data for ports that are not connected or already "
+            "finished. Sender-side chunking and receiver-side reassembly harnesses exist but are only registered where they "
+            "verify within the cap (see evidence); end-to-end exactly-once delivery is a composition argument over these "
+            "atomic steps and FIFO queues, not a solver result.", "DESIGN.md 0, 4 C01"),
+    "C02": ("Solver verdict over all 32-bit values for every credit-moving step (use_credits, start_return/return_flush, "
+            "provide, try_request/request, AssignedCredits take/drop) and for the dispatcher's PortCredits/ReturnCredits "
+            "steps: each step moves exactly the amount it accounts for, never exceeds the advertised buffer, never returns "
+            "more than was consumed. The whole-life bound follows by induction over these atomic steps (single dispatcher "
+            "task); the induction itself is a paper argument.", "DESIGN.md 4 C02"),
+    "C03": ("Safety core of liveness, decided by the solver for all 32-bit credit values: no credit is created or lost by any "
+            "credit kernel, provide/close wake every registered waiter, a request that found too little credit is registered "
+            "as waiter under the same lock and completes on the next poll once enough was granted, and after any "
+            "start_return the receiver holds back less than the threshold so an idle receiver leaves the sender >= 4 credits. "
+            "The fairness part of liveness (eventual completion under a fair scheduler) is not decided.", "DESIGN.md 4 C03"),
+    "C05": ("Pairing kernels only: the dispatcher's Accepted step hands the accepting side a sender/receiver pair for exactly "
+            "(local port, requested remote port) and answers the peer with exactly that pair of numbers (solver verdict for all "
+            "port numbers). The rch layer (serde callbacks, forwarding, interlock) is outside.", "DESIGN.md 4 C05"),
+    "C06": ("Port-level observation only: for all pool/flag values, a credit request on a port whose dispatcher is gone "
+            "returns Ready(Err(ChMux)) on its first poll (never Pending) and try_request returns ChMux; closed pools yield the "
+            "documented Closed{gracefully}; Reset/Hello received on an established connection terminate the dispatcher step "
+            "with an error. Timeouts, run()'s select loop and typed channels are outside.", "DESIGN.md 4 C06"),
+    "C07": ("Solver verdict over all flag combinations for the port-table kernels: maybe_free_port releases the entry and the "
+            "port number iff all four conditions hold; each local drop/close event and each remote finish/close "
+            "notification sets exactly its own flag, emits exactly its frame and releases iff all four; should_terminate "
+            "equals the documented formula. Task reclamation and the two-sided Goodbye exchange are outside.", "DESIGN.md 4 C07"),
+    "C08": ("No-panic and protocol-error classification, decided by the solver (Kani's panic/overflow/bounds checks on) for "
+            "one dispatcher step per message kind from dispatcher states with symbolic flags: notifications and data for "
+            "unknown, connecting, finished or already-closed ports, repeated notifications, over-full listener queues, "
+            "Reset/Hello, credit overflow - all end in ChMuxError::Protocol/Reset with no state change. Frame decoding of "
+            "well-formed frames is under C09. Arbitrary byte strings and PortData frames are not registered (too heavy); "
+            "known finding F5 concerns the latter.", "DESIGN.md 4 C08"),
+    "C09": ("Differential check against an independently written reference layout of protocol v3: for every message kind, "
+            "with every field and flag symbolic over its full range, the real encoder's bytes equal the reference bytes and "
+            "the real decoder accepts the reference bytes and yields the same fields (PortData as a family 0..2 ports, ids "
+            "present/absent = v2 form); ids are emitted in OpenPort iff the peer announced version >= 3.", "DESIGN.md 4 C09"),
+    "C10": ("Exactly-once resolution kernels, decided per step for all port numbers/ids/flags: ConnectReq either registers "
+            "the port and emits one OpenPort or is refused locally with Rejected; PortOpened/Rejected resolve exactly the "
+            "responder registered under that client port once (repeat, connected or unknown port = Protocol error); OpenPort "
+            "rejects duplicates and over-full queues and queues exactly one request in the queue selected by the wait flag; "
+            "Accepted/Rejected events answer the peer and forget the outstanding request. Connect futures, the request "
+            "crediter and exhaustion policies are outside.", "DESIGN.md 4 C10"),
+    "C11": ("Port-level close/drop kernels: ReceiveClose closes the credit pool gracefully, ReceiveFinish non-gracefully, "
+            "both raise the hang-up flag, fire notifiers once and wake blocked senders; credit requests on closed pools "
+            "return the documented classification (incl. the graceful-close override); ReceiverClosed/ReceiverDropped/"
+            "SenderDropped events emit exactly ReceiveClose/ReceiveFinish/SendFinish. Typed channels and eventual "
+            "observability are outside.", "DESIGN.md 4 C11"),
 }
 
 NOT_APPLICABLE = {
@@ -30,6 +73,11 @@ NOT_APPLICABLE = {
     "C12": "macro-generated multi-task RPC; linearizability of concurrent histories has no single-step kernel and multi-task coroutine execution is out of reach for Kani",
     "C15": "behaviour is tokio's watch cell (replaced by a model here) plus two forwarding tasks; a harness would verify the model, not remoc",
     "C17": "protocol among >=3 interleaved tasks over typed channels; exclusion and deadlock freedom are interleaving properties, not encodable within reach",
+    "C13": "harnesses over ObservableVec + MirroredVecInner exist (kani/harness/c13_vec.rs) but are not registered: the local event path (rch::broadcast -> rch::mpsc -> model queues) did not verify within the time/memory cap on this machine; not claimed rather than reported as success",
+    "C14": "depends on the same robs/broadcast event path as C13, which is not within reach of the solver here; the mirror tasks themselves are spawned tasks (not encodable)",
+    "C16": "rch::broadcast::Sender::send spawns a re-admission task per lagging subscriber and the subscriber queues are rch::mpsc channels over several tokio primitives; a one-step harness did not fit the cap; not claimed",
+    "C18": "rch::io sender/receiver state machines are driven through boxed futures over rch::bin/base channels (serde, spawned tasks); no synchronous kernel could be isolated within the time available; not claimed",
+    "C20": "Handle::{into_inner,as_ref,as_mut} go through tokio RwLock owned guards and the AnyStorage hash map keyed by random uuids; not built within the time available; not claimed",
     "C19": "same reason as C12: generated multi-task code racing execution against closed(); no synchronous kernel",
 }
 
